@@ -250,16 +250,18 @@ func H_c12(p []int) {
 	} else {
 		r0 = c12Expected(probe, s)
 	}
-	for _, h := range p[2:] {
-		c12History(h, hs)
-	}
-	// a result obtained before the probe, re-examined after it
+	// a result obtained before the history, re-examined after the probe
+	// (before, so that the history's calls are the last ones the recycled
+	// printers have seen when the probe runs)
 	var early redact.RedactableString
 	func() {
 		defer func() { recover() }()
 		early = redact.Sprintf("pfx %v sfx", redact.Safe(sfDoublePanic{hs}))
 	}()
 	earlyCopy := append([]byte{}, early...)
+	for _, h := range p[2:] {
+		c12History(h, hs)
+	}
 	// the probe may now be served any printer freed so far, or a new one
 	vPoolAdversarial(true)
 	before := vPoolReuses()
